@@ -23,7 +23,7 @@ import (
 	"verif/harness/internal/hx"
 )
 
-const ruleC19 = "rapid state machine over wallet.Service on a scratch directory (sha256-xor or weak scrypt): create (deterministic / bip44 / collection / xpub, temporary or not, encrypted or not, seeds from a pool of 4 so that duplicates occur, bad parameters: empty seed, invalid mnemonic, passphrase on a deterministic wallet, bad xpub, name collision), new addresses, scan, label change, encrypt, decrypt, recover, unload, secret update (incl. a callback that fails), each with right / wrong / missing passwords and unknown wallet ids, and 1 step in 6 with a disk fault in place that makes the save inside the operation fail (wallet directory moved away, or the wallet file name occupied by a directory so that the final rename fails); after every step: every loaded non-temporary wallet's serialisation equals the bytes of its file and the serialisation of the same wallet in a freshly started service on the directory, temporary wallets have no file, no two loaded wallets share a fingerprint, and a step that returned an error left the directory (names and bytes) and every in-memory wallet unchanged; non-trivial = the history has at least one failing operation and one encrypt or decrypt; distinct by operation log"
+const ruleC19 = "rapid state machine over wallet.Service on a scratch directory (sha256-xor or weak scrypt): create (deterministic / bip44 / collection / xpub, temporary or not, encrypted or not, seeds from a pool of 4 so that duplicates occur, half of the bip44 wallets encrypted and half on another coin path than the service's, 'twin' creations that reuse the seed and passphrase of a loaded - preferably recovered - bip44 wallet, bad parameters: empty seed, invalid mnemonic, passphrase on a deterministic wallet, bad xpub, name collision), new addresses, scan, label change, encrypt, decrypt, recover (aimed at an encrypted bip44 wallet half of the time), unload, secret update (incl. a callback that fails), each with right / wrong / missing passwords and unknown wallet ids, and 1 step in 6 with a disk fault in place that makes the save inside the operation fail (wallet directory moved away, or the wallet file name occupied by a directory so that the final rename fails); after every step: every loaded non-temporary wallet's serialisation equals the bytes of its file and the serialisation of the same wallet in a freshly started service on the directory, temporary wallets have no file, no two loaded wallets share a fingerprint, and a step that returned an error left the directory (names and bytes) and every in-memory wallet unchanged; non-trivial = the history has at least one failing operation and one encrypt or decrypt; distinct by operation log"
 
 func dirSnapshot(dir string) map[string]string {
 	out := map[string]string{}
@@ -89,12 +89,15 @@ func TestC19_Service(t *testing.T) {
 			t.Fatalf("NewService: %v", err)
 		}
 		type minfo struct {
-			temp     bool
-			pw       string // "" = not encrypted
-			kind     wkind
-			seed     string
-			pass     string
-			unloaded bool
+			temp      bool
+			pw        string // "" = not encrypted
+			kind      wkind
+			seed      string
+			pass      string
+			unloaded  bool
+			seedIdx   int
+			recovered bool
+			otherCoin bool
 		}
 		model := map[string]*minfo{} // loaded wallets by id
 		unloaded := map[string]bool{}
@@ -270,8 +273,40 @@ func TestC19_Service(t *testing.T) {
 					}
 				}
 				seedIdx := rapid.IntRange(0, 3).Draw(t, "seed")
+				twinPass, twin, twinOther := "", false, false
+				{
+					// a second wallet of the seed and passphrase of a loaded bip44 wallet (preferably one that went through a recovery),
+					// on either coin path: whatever the service answers, no two loaded wallets may share a fingerprint afterwards
+					var ids, rec []string
+					for id, mi := range model {
+						if mi.kind == kBip {
+							ids = append(ids, id)
+							if mi.recovered {
+								rec = append(rec, id)
+							}
+						}
+					}
+					sort.Strings(ids)
+					sort.Strings(rec)
+					switch {
+					case len(rec) > 0 && rapid.IntRange(0, 1).Draw(t, "twin_of_recovered") == 1:
+						kind, ids = kBip, rec
+					case kind == kBip && len(ids) > 0 && rapid.IntRange(0, 3).Draw(t, "twin") == 2:
+					default:
+						ids = nil
+					}
+					if len(ids) > 0 {
+						o := model[rapid.SampledFrom(ids).Draw(t, "twin_of")]
+						seedIdx, twinPass, twin = o.seedIdx, o.pass, true
+						r.Count("create_twin_of_loaded_bip44_wallet")
+						if o.recovered {
+							r.Count("create_twin_of_recovered_wallet")
+						}
+						twinOther = o.recovered && o.otherCoin
+					}
+				}
 				opts := wallet.Options{CryptoType: cfg.CryptoType, Label: "label " + name, GenerateN: uint64(rapid.IntRange(0, 3).Draw(t, "n")), Temp: rapid.IntRange(0, 5).Draw(t, "temp") == 0}
-				mi := &minfo{temp: opts.Temp, kind: kind}
+				mi := &minfo{temp: opts.Temp, kind: kind, seedIdx: seedIdx}
 				switch kind {
 				case kDet:
 					opts.Type = wallet.WalletTypeDeterministic
@@ -280,9 +315,15 @@ func TestC19_Service(t *testing.T) {
 					opts.Type = wallet.WalletTypeBip44
 					opts.Seed = mnemonicN(seedIdx)
 					opts.SeedPassphrase = []string{"", "pp"}[rapid.IntRange(0, 1).Draw(t, "pp")]
-					if rapid.IntRange(0, 3).Draw(t, "other_coin_path") == 2 {
+					if twin {
+						opts.SeedPassphrase = twinPass
+					}
+					if rapid.IntRange(0, 1).Draw(t, "other_coin_path") == 1 {
 						ct := bip44.CoinTypeBitcoin // a wallet on another bip44 coin path than the service's default
 						opts.Bip44Coin = &ct
+						mi.otherCoin = true
+					} else if twinOther {
+						r.Count("create_twin_on_default_path_of_recovered_wallet_on_other_path")
 					}
 				case kColl:
 					opts.Type = wallet.WalletTypeCollection
@@ -293,7 +334,11 @@ func TestC19_Service(t *testing.T) {
 					opts.XPub = x
 				}
 				mi.seed, mi.pass = opts.Seed, opts.SeedPassphrase
-				switch rapid.IntRange(0, 11).Draw(t, "bad") {
+				bad := rapid.IntRange(0, 11).Draw(t, "bad")
+				if twin {
+					bad = 11 // the point of a twin is the duplicate check: leave its parameters alone
+				}
+				switch bad {
 				case 0:
 					opts.Seed, opts.XPub = "", ""
 				case 1:
@@ -309,7 +354,11 @@ func TestC19_Service(t *testing.T) {
 				case 4:
 					opts.Label = ""
 				}
-				if kind != kXpub && !opts.Temp && rapid.IntRange(0, 3).Draw(t, "enc") == 0 {
+				encOdds := 3
+				if kind == kBip {
+					encOdds = 1 // recovery applies to encrypted wallets only
+				}
+				if kind != kXpub && !opts.Temp && rapid.IntRange(0, encOdds).Draw(t, "enc") == 0 {
 					opts.Encrypt = true
 					opts.Password = []byte("pw" + name)
 					mi.pw = string(opts.Password)
@@ -326,6 +375,12 @@ func TestC19_Service(t *testing.T) {
 					}
 					model[name] = mi
 					delete(unloaded, name)
+					if kind == kBip && mi.pw != "" {
+						r.Count("created_encrypted_bip44_wallet")
+						if mi.otherCoin {
+							r.Count("created_encrypted_bip44_wallet_on_other_coin_path")
+						}
+					}
 				}
 				invariant(fmt.Sprintf("create(%s,%s,seed%d,temp=%v,enc=%v)%s", name, kind, seedIdx, opts.Temp, opts.Encrypt, fd), err, bd, bm)
 			},
@@ -430,7 +485,18 @@ func TestC19_Service(t *testing.T) {
 				bd, bm := snap()
 				id := pickID(t)
 				seed, pass := "seed-A", ""
-				if mi := model[id]; mi != nil && rapid.IntRange(0, 2).Draw(t, "rightseed") != 0 {
+				var encIDs []string
+				for wid, mi := range model {
+					if mi.pw != "" && mi.kind == kBip {
+						encIDs = append(encIDs, wid)
+					}
+				}
+				sort.Strings(encIDs)
+				aimed := false
+				if len(encIDs) > 0 && rapid.IntRange(0, 1).Draw(t, "aim_at_encrypted_bip44") == 1 {
+					id, aimed = rapid.SampledFrom(encIDs).Draw(t, "enc_id"), true // recovery only applies to encrypted wallets: aim at one half of the time
+				}
+				if mi := model[id]; mi != nil && (aimed || rapid.IntRange(0, 2).Draw(t, "rightseed") != 0) {
 					seed, pass = mi.seed, mi.pass
 				}
 				newpw := rapid.SampledFrom([]string{"", "newpw"}).Draw(t, "newpw")
@@ -445,6 +511,11 @@ func TestC19_Service(t *testing.T) {
 				disarm()
 				if err == nil {
 					model[id].pw = newpw
+					model[id].recovered = true
+					r.Count("recover_succeeded")
+					if model[id].otherCoin {
+						r.Count("recover_succeeded_other_coin_path")
+					}
 				}
 				invariant(fmt.Sprintf("recover(%s,newpw=%q)%s", id, newpw, fd), err, bd, bm)
 			},
